@@ -44,7 +44,7 @@ PYGEN = f"{PY}.CodeGenerator"
 INTERP = "dagrt.exec_numpy.NumpyInterpreter"
 
 
-def check(run, P):
+def _check_main(run, P):
     run.rule("C01.handlers", "every statement kind is handled by the interpreter "
              "and by the Python (and Fortran) emitter, or by none", minimum=8)
     run.rule("C01.driver", "NumpyInterpreter.run and the generated run() have the "
@@ -1131,3 +1131,9 @@ def _genfunc(run, P):
         run.ob("C01.genfunc", m, m.node, ok,
                construct=f"{name}: emits a bare yield when the phase has no YieldState",
                why="a phase function without any yield is not a generator")
+
+
+def check(run, P):
+    _check_main(run, P)
+    from . import generic
+    generic.lints(run, P, "C01")
